@@ -19,7 +19,7 @@ CLAIMS = {
  "C03": ("exploration",
          "differential testing of generated query trees on generated corpora against a naive evaluator, across collectors and across segmentations (metamorphic re-check after merging)",
          "Generated corpora (boundary posting-list lengths, several size classes, segmentations, deletes, sorted or not) and generated query trees over every listed query type are evaluated by tantivy through DocSetCollector, Count, Query::count, TopDocs, tuple/Multi collectors and FilterCollector and compared with an independent evaluator over the model documents, again after merging all segments.",
-         "ASCII word text; reference semantics of fuzzy/regex use independent implementations (own edit distance, the regex crate) on a fixed small vocabulary; JSON and facet fields are not generated here",
+         "ASCII word text; reference semantics of fuzzy/regex use independent implementations (own edit distance, the regex crate) on a fixed small vocabulary; JSON, facet, bool and bytes fields are covered by the separate sub typed_fields with its own small model (typed JSON terms of the indexed numeric type only)",
          "DESIGN.md §3 C03"),
  "C04": ("translation_validation",
          "per-merge translation validation: canonical dump of the merged segment vs the dumps of its sources on generated indexes (proptest), plus gated merge-thread schedules and histories under an always-firing merge policy (committed and uncommitted segments) judged against the sequential model",
